@@ -24,7 +24,7 @@ def run_simple(cfg):
     _kernel.reset(mode="prw", scale=0.5, horizon=500, emcee_seed=cfg["seed"])
     orng.CONFIG["factory"] = None
     orng.CONFIG["seed"] = cfg["seed"]
-    mon = Monitor(p["like"], p["prior"], ns, keep_points=True)
+    mon = Monitor(p["like"], p["prior"], ns, keep_points=True, fault_at=cfg.get("fault_at"))
     mon.ret_dtype = cfg.get("callback_dtype")
     flow = AnalyticFlow(2, seed=cfg["seed"] + 1000, xp_name=ns, dtype=get_dtype(ns, cfg.get("dtype")), **p["flow"])
     a = Aspire(log_likelihood=mon.log_likelihood, log_prior=mon.log_prior, dims=2, parameters=p["parameters"],
